@@ -19,7 +19,7 @@ for d in sorted(glob.glob(os.path.join(root, "seeded", "C*-m*"))):
     else:
         meta = {"id": sid, "property": sid.split("-")[0], "summary": agent.get("summary", ""),
                 "needs_to_manifest": agent.get("needs_to_manifest", ""), "files_changed": agent.get("files_changed", []),
-                "produced_by": "fresh sub-agent given only the property text and a scratch worktree of /repo (nothing from /verif); second round"}
+                "produced_by": "fresh sub-agent given only the property text and a scratch worktree of /repo (nothing from /verif); later round (2 or 3)"}
     cl = os.path.join(d, "confirm.log")
     if os.path.exists(cl):
         txt = open(cl).read()
